@@ -97,7 +97,9 @@ def flaggedAll (dims : List (Option Range × Array Rat)) : List Part → Nat →
   | [], _ => true
   | p :: ps, start =>
     (p.usr == 0 || visAll dims start || decide (0 < p.cut))
-    && (p.usr == 0 || visAll dims (start + p.usr - 1) || decide (0 < p.trim))
+    && (p.usr == 0 || visAll dims (start + p.usr - 1) || decide (0 < p.trim) || (p.usr == 1 && decide (0 < p.cut)))
+    -- the points handed out by the part view: never more points removed than drawn
+    && decide ((if p.cut ≠ 0 then 1 else 0) + (if p.trim ≠ 0 then 1 else 0) ≤ p.usr ∨ p.usr = 0)
     && flaggedAll dims ps (start + p.raw)
 
 /-- the points a part view hands out (span `a+b` inside the drawn points that start at `c`) are visible in
